@@ -98,6 +98,19 @@ def _systems():
     # only a canonical (sorted) fingerprint makes a re-ordered repeat a cache hit
     S.append(("all-options", [("ds", "whole", {"params": [("all",)]})],
               [("Ka", [1]), ("Kb", [ABSENT, 2]), ("Kc", [3]), ("Kd", [ABSENT, 4]), ("Ke", [5]), ("Kf", [6]), ("Kg", [7]), ("Kh", [8])]))
+    # a section pre-set on a derivative / by the decorator / by a wrapper below a cached consumer: caller entries
+    # that are all overridden cannot matter to the consumer
+    whole = ("ds", "whole", {"params": [("opt", "S")]})
+    SXY = [("S.X", [ABSENT, 1, 2]), ("S.Y", [ABSENT, 5])]
+    der = ("dswo", whole, {"S": {"X": 9}})
+    S.append(("preset-section-derivative", [("ds", "report", {"params": [der]}), der], SXY))
+    S.append(("preset-section-decorator", [("ds", "report", {"params": [("ds", "whole", {"params": [("opt", "S")], "options": {"S": {"X": 9}}})]})], SXY))
+    S.append(("preset-section-wrapper", [("ds", "report", {"params": [("withopt", ("tuple", [("opt", "S"), ("opt", "S.X")]), {"S": {"X": 9}}, True)]})], SXY))
+    # the same definition spelled as a chain of specialised factories (effects accumulate along the chain)
+    effc = ("ds", "effc", {"params": [("opt", "A")], "effects": ["e1", "e2"], "callback": ("fn", "cb"), "factory": "chain"})
+    S.append(("effects-factory-chain", [effc, ("ds", "user", {"params": [effc, ("opt", "B", ("val", 0))], "factory": "chain"})], [A3, B3]))
+    ncc = ("ds", "ncc", {"params": [inner], "cache": "none", "effects": ["en"], "factory": "chain"})
+    S.append(("nocache-factory-chain", [("ds", "top3", {"params": [ncc, inner]}), ncc], [A3]))
     three = ("ds", "three", {"params": [inner, mid2, ("ds", "leaf3", {"params": [("opt", "C", ("val", 0))]})]})
     S.append(("three-deps", [three], [A2, ("C", [ABSENT, 1])]))
     return S
